@@ -26,6 +26,7 @@ impl Visitor<Statement> for ForNextCounterMatch {
 impl Visitor<ForLoop> for ForNextCounterMatch {
     fn visit(&mut self, f: &ForLoop) -> crate::core::VisitResult {
         self.ensure_numeric_variable(f)?;
+        self.ensure_numeric_bounds(f)?;
         self.ensure_for_next_counter_match(f)
     }
 }
@@ -47,6 +48,20 @@ impl ForNextCounterMatch {
             // e.g. an array element or a property
             _ => Err(LintError::TypeMismatch.at_pos(*pos)),
         }
+    }
+
+    /// The bounds and the step are converted to the type of the counter at run time.
+    fn ensure_numeric_bounds(&self, f: &ForLoop) -> Result<(), LintErrorPos> {
+        let counter = &f.variable_name.element;
+        for expr in [Some(&f.lower_bound), Some(&f.upper_bound), f.step.as_ref()]
+            .into_iter()
+            .flatten()
+        {
+            if !expr.can_cast_to(counter) {
+                return Err(LintError::TypeMismatch.at(expr));
+            }
+        }
+        Ok(())
     }
 
     fn ensure_for_next_counter_match(&self, f: &ForLoop) -> Result<(), LintErrorPos> {
